@@ -6,5 +6,9 @@ def ieee(n, **kw):
     return d
 
 OBLIGATIONS = [ieee(2, unwindset=["Double_2_ieee2.0:31"]), ieee(4), ieee(8), ieee(10, unwindset=["Double_2_ieee10.2:54"])]
-META = dict(outside=["argument-list syntax (DUP, [n], ?, strings, CHARSET)", "decimal float, VAX/IBM/TI float formats"],
+OBLIGATIONS.append(dict(name="codefill", src="codefill.c", include=["intpseudo.c"], units=["asmdef.c"], stubs=["diag.c", "fmt_off.c"], defs=["STRINGSIZE=16"], nobody_mode="nondet", unwind=6, timeout=600,
+    functions=["intpseudo.c:IncCodeFill", "intpseudo.c:IncCodeFillBy", "intpseudo.c:SubCodeFill", "intpseudo.c:MultCodeFill"],
+    bounds="fills of up to 4096 full words, 1/2/4 elements per word, replication count <= 64",
+    assumes=["only the four arithmetic helpers are executed; the argument parser of DB/DW/.. and the DUP evaluator that call them are outside"]))
+META = dict(outside=["argument-list syntax (DUP, [n], ?, strings, CHARSET) beyond the fill arithmetic of codefill", "decimal float, VAX/IBM/TI float formats"],
             assumptions=["CBMC IEEE semantics of the (float) cast = round-to-nearest-even"])
